@@ -37,7 +37,8 @@ ASSUMPTIONS = [
     "join tolerances are 1e-9 x the term magnitudes of the constraint row (row-wise backward error of the linear "
     "solve), not scaled by the condition number; the independent re-solve comparison is scaled by it",
 ]
-REQUIRED = {"type:exp_spline": 30, "type:buck4_spline": 30, "route:text": 50, "route:as.buck4": 15}
+REQUIRED = {"type:exp_spline": 30, "type:buck4_spline": 30, "route:text": 50, "route:as.buck4": 15,
+            "integer_breakpoints": 15}
 TOL = 1e-9
 
 
@@ -49,13 +50,17 @@ def _case(draw):
         return {"kind": kind, "p": p, "extra_r": draw(st.lists(gen.fl(0.05, 6.0), min_size=2, max_size=4))}
     a = draw(gen.form_leaf(gen.SMOOTH))
     b = draw(gen.form_leaf(gen.SMOOTH))
-    detach = round(draw(gen.fl(0.3, 2.0)), 3)
-    attach = round(detach + draw(gen.fl(0.3, 2.5)), 3)
+    ints = draw(st.integers(0, 3)) == 0
+    if ints:
+        detach, rmin_i, attach = draw(st.sampled_from(gen.INT_BREAKS))     # typed as whole numbers (Python ints)
+    else:
+        detach = round(draw(gen.fl(0.3, 2.0)), 3)
+        attach = round(detach + draw(gen.fl(0.3, 2.5)), 3)
     c = {"kind": kind, "a": a, "b": b, "detach": detach, "attach": attach,
          "extra_r": draw(st.lists(gen.fl(0.05, 6.0), min_size=2, max_size=4)),
          "m1": draw(st.sampled_from([">", ">="])), "m2": draw(st.sampled_from([">", ">="]))}
     if kind == "buck4_spline":
-        c["rmin"] = round(detach + (attach - detach) * draw(gen.fl(0.15, 0.85)), 4)
+        c["rmin"] = rmin_i if ints else round(detach + (attach - detach) * draw(gen.fl(0.15, 0.85)), 4)
     return c
 
 
@@ -132,6 +137,8 @@ def check_case(case):
     kwname = rgs[1]["body"]["name"]
     rmin = rgs[1]["body"]["p"][0] if rgs[1]["body"]["p"] else None
     cls.append("type:" + kwname)
+    if all(isinstance(x, int) for x in (detach, attach)) and (rmin is None or isinstance(rmin, int)):
+        cls.append("integer_breakpoints")
     ref = model.Ref()
     pd = {"ranges": [{"m": None, "s": None, "body": node}]}
     a_node, b_node = rgs[0]["body"], rgs[2]["body"]
